@@ -37,6 +37,11 @@ type genCase struct {
 	In   []byte   `json:"-"`
 	// ParamCall: position in the original plan whose per-call parameters a single-call re-run uses.
 	ParamCall int `json:"param_call,omitempty"`
+	// core set (core.go): NoGate = every planned entry point runs whatever the front end says;
+	// BudgetMs > 0 = CPU milliseconds after which a FIRST-pass call becomes a candidate (the verdict
+	// is still the re-run alone under twice the property's budget).
+	NoGate   bool  `json:"no_gate,omitempty"`
+	BudgetMs int64 `json:"budget_ms,omitempty"`
 }
 
 // material is the seed corpus, loaded once by the parent.
